@@ -71,7 +71,7 @@ CLAIMS = {
   'Lean 4 kernel evaluation (decide +kernel) over tables regenerated from source', 'DESIGN.md section 4, C14'),
  'C15': (M, 'proof',
   'Theorem C15_truthful: when the flag condition holds (no extra entries, N1 even) every column but the last has even weight, so the sum '
-  'of all equations forces the last repair symbol to zero; the flag is the same function for both roles. Tie: flag of real encoder and '
+  'of all equations forces the last repair symbol to zero; the flag is the same function for both roles. C15_lastNullCheck_every_configuration / C15_truthful_every_configuration: the column-weight condition is PROVED for every matrix the RFC 5170 construction returns without extra entries and with N1 even (each source column receives exactly N1 distinct rows, each repair column the two staircase entries, the last one only one), for every (k, n-k, N1, seed) and every rounding operator of the binary64 standard model - so the encoder model emits a zero last repair symbol for every source block of every configuration for which the flag is true. Tie: flag of real encoder and '
   'decoder vs model over an even-N1 grid, and the real last repair symbol must be all zeros whenever the flag is set.',
   'Lean 4 theorem (column-parity argument) + flag/zero-symbol correspondence', 'DESIGN.md section 4, C15'),
  'C19': (T, 'proof',
